@@ -490,10 +490,17 @@ def xyz_reader(reader_class: ReadAndProcessOnTheFly) -> List[np.ndarray]:
     if reader_class.file_object is None:
         return trajectory
     for i, line in enumerate(iter(reader_class.file_object.readline, "")):
+        # a line without its newline is still being written (its last
+        # number may be truncated): the frame is not ready
+        if not line.endswith("\n"):
+            return trajectory
         spl = line.split()
         if i == 0 and spl:
             N_atoms = int(spl[0])
             block_size = N_atoms + 2  # 2 header lines
+        # no atom count could be read (blank line): nothing is ready
+        if block_size == 0:
+            return trajectory
         # if we are not in the atom nr or header block
         if i % block_size > 1:
             # if there aren't enough values to iterate through
@@ -585,8 +592,9 @@ def lammpstrj_reader(
                 box_snapshot[line_nr - 5] = spl + [0] * (3 - n_box_cols)
         # we are in the atoms block
         elif line_nr >= 9:
-            # frame is not ready
-            if len(spl) != 9 or spl[0] != spl[-1]:
+            # frame is not ready (the line must be complete, including
+            # its newline, so that we always stop at a line boundary)
+            if len(spl) != 9 or spl[0] != spl[-1] or line[-1] != "\n":
                 return trajectory, box
             else:
                 # the atom number, which are not sorted by default in lammps
